@@ -1,6 +1,7 @@
 """C02 FEB waiters are always woken.  Same model/harness as C01; scripts biased to many waiters of each kind on one word."""
 from . import _feb_common as fc
 from . import _feb_free as fr          # extension D: free-running tier (M4)
+from . import _feb_micro3 as m3       # extension K: micro-step tier with a pre-blocked third task (M3)
 
 LEVEL = "proof"
 
@@ -30,9 +31,12 @@ def run(ctx):
     # extension D (M4): free-running programs, logged histories judged by the acceptor extracted from Feb/History.v
     ctx.coq_properties("Properties/Properties_C02_hist.v")
     fr.run_free(ctx, quick, prop_words="C02")
+    m3.run_micro3(ctx, quick)          # extension K (theorems Properties/Properties_C01_micro3.v + two-hold baton on feb.c)
 
 
 def replay(ctx, path):
+    if m3.is_micro3_replay(path):      # extension K
+        return m3.replay_file(ctx, path)
     if fr.is_free_replay(path):
         return fr.replay_file(ctx, path)
     fc.replay_file(ctx, path)
